@@ -28,8 +28,38 @@ const specNoComponents = `{"openapi":"3.0.3","info":{"title":"t","version":"1"},
 // a spec without any operation (a shared type library): only components.go has content of its own
 const specNoOperations = `{"openapi":"3.0.3","info":{"title":"t","version":"1"},"paths":{},"components":{"schemas":{"Pet":{"type":"object","required":["name"],"properties":{"name":{"type":"string"},"tag":{"type":"string"}}}}}}`
 
+// bigSpec: every generated file is well beyond 32 KiB; the two variants differ in one digit of the
+// last operation (status 200 / 201), so each file keeps its length and differs only near its end
+func bigSpec(variant int) string {
+	paths := map[string]any{}
+	for k := 0; k < 24; k++ {
+		st := "200"
+		if k == 23 && variant == 1 {
+			st = "201"
+		}
+		paths[fmt.Sprintf("/zone%02d/{id}", k)] = map[string]any{"get": map[string]any{
+			"parameters": []any{map[string]any{"in": "path", "name": "id", "required": true, "schema": map[string]any{"type": "integer"}},
+				map[string]any{"in": "query", "name": "limit", "schema": map[string]any{"type": "integer", "format": "int32"}},
+				map[string]any{"in": "header", "name": "X-Trace", "schema": map[string]any{"type": "string"}}},
+			"responses": map[string]any{st: map[string]any{"description": "ok", "headers": map[string]any{"X-Next": map[string]any{"schema": map[string]any{"type": "string"}}},
+				"content": map[string]any{"application/json": map[string]any{"schema": map[string]any{"$ref": "#/components/schemas/Pet"}}}}, "default": map[string]any{"description": "d"}}}}
+	}
+	doc := map[string]any{"openapi": "3.0.3", "info": map[string]any{"title": "t", "version": "1"}, "paths": paths,
+		"components": map[string]any{"schemas": map[string]any{"Pet": map[string]any{"type": "object", "required": []any{"name"}, "properties": map[string]any{"name": map[string]any{"type": "string"}, "tag": map[string]any{"type": "string"}}}}}}
+	bs, _ := json.Marshal(doc)
+	return string(bs)
+}
+
+func dirSpec(i int) string {
+	switch i {
+	case 3, 4:
+		return bigSpec(i - 3)
+	}
+	return []string{specWithComponents, specNoComponents, specNoOperations}[i]
+}
+
 type dirInv struct {
-	Spec   int // 0 with components, 1 without, 2 without operations
+	Spec   int // 0 with components, 1 without, 2 without operations, 3 / 4 the two big variants
 	Client bool
 	API    bool
 	DNE    bool // --donotedit
@@ -59,7 +89,7 @@ func hashFile(p string) string {
 }
 
 func runInv(work, dir string, inv dirInv) error {
-	spec := []string{specWithComponents, specNoComponents, specNoOperations}[inv.Spec]
+	spec := dirSpec(inv.Spec)
 	r := runGoagDir(work, dir, fmt.Sprintf("dirspec%d", inv.Spec), []byte(spec), inv.Client, !inv.API, inv.DNE, "p")
 	if r.Outcome != "ok" {
 		return fmt.Errorf("goag %s: %s", r.Outcome, firstLine(r.Detail))
@@ -70,7 +100,7 @@ func runInv(work, dir string, inv dirInv) error {
 // runFailing: an invocation that fails (a package name that is not an identifier: the first file
 // it renders is not valid Go). Whatever it leaves behind, the next successful run must clean up.
 func runFailing(work, dir string, inv dirInv) bool {
-	spec := []string{specWithComponents, specNoComponents, specNoOperations}[inv.Spec]
+	spec := dirSpec(inv.Spec)
 	r := runGoagDir(work, dir, fmt.Sprintf("dirspec%d", inv.Spec), []byte(spec), inv.Client, !inv.API, inv.DNE, "pet-api")
 	return r.Outcome == "error"
 }
@@ -88,8 +118,11 @@ func facetDir(args []string) error {
 	rng := NewPRNG(*seed)
 
 	var invs []dirInv
-	for s := 0; s < 3; s++ {
+	for s := 0; s < 5; s++ {
 		for _, e := range []bool{true, false} {
+			if s >= 3 && !e {
+				continue // the big variants only with the header
+			}
 			for _, c := range []bool{false, true} {
 				for _, a := range []bool{false, true} {
 					invs = append(invs, dirInv{s, c, a, e})
